@@ -20,6 +20,9 @@ P_C16_IdentOnly == \A tr \in {FALSE} :
 P_C16_KnownTight == (~\E j \in 1..Len(args) : args[j].form \in {"binor", "binor2"})
                         => SplitAgrees(args, FALSE)
 
+\* C18: every step of the scanner consumes at least one token (take_until1 terminates)
+P_C18_Progress == LET ts == ListTokens(args, TRUE) IN \A i \in 1..Len(ts) : StepEnd(ts, i) > i
+
 CaseRec == [args |-> args, tokens |-> ListTokens(args, FALSE), doc |-> DocSplit(args),
             impl |-> ImplSplit(ListTokens(args, FALSE)), known |-> KnownDeviation(args),
             kds |-> (IF KD1(args) THEN <<"KD1">> ELSE <<>>) \o (IF KD2(args) THEN <<"KD2">> ELSE <<>>)
